@@ -215,6 +215,7 @@ PROPS = {
     scenarios=[dict(bin="exec", args=["sub=close"], runs=200, thorough_scale=40, model_name="M11 Exec", kinds=["close_callback_count", "callback_before_last_item", "status_not_ended", "finish_before_start", "panic"]),
                dict(bin="exec", args=["sub=account"], runs=100, thorough_scale=40, model_name="M10 Exec", kinds=["close_callback_count", "panic"]),
                dict(bin="exec", args=["sub=mcancel"], runs=150, model=False, single=True, thorough_scale=10, model_name="(oracle only: Multi executors removed individually)", kinds=["close_callback_count", "status_not_ended", "programmatically_ended_unscheduled", "finish_before_start", "callback_before_last_item", "cancel_refused", "panic"]),
+               dict(bin="exec", args=["sub=latch"], runs=300, model=False, single=True, thorough_scale=20, model_name="(stress, multi-thread runtime: the four executors of a Uni reach the latch at the same instant)", kinds=["close_callback_count", "panic"]),
                dict(bin="exec", args=["sub=transition"], runs=80, model=False, single=True, thorough_scale=10, model_name="(oracle only: log-channel Multi, oldies -> newies)", kinds=["new_before_old", "transition_lost_or_duplicated", "close_callback_count", "close_failed", "panic"])],
     rule="as C06/C11; DISTINCT by event log",
     trusted_base=TB_COMMON + ["tokio and futures 0.3 contracts as in C11"],
